@@ -176,11 +176,19 @@ class Ctx:
 
 
 def load_known():
+    out = []
     try:
         with open(KNOWN) as f:
-            return json.load(f).get("findings", [])
+            out.extend(json.load(f).get("findings", []))
     except FileNotFoundError:
-        return []
+        pass
+    d = os.path.join(VERIF, "known_findings.d")
+    if os.path.isdir(d):
+        for fn in sorted(os.listdir(d)):
+            if fn.endswith(".json"):
+                with open(os.path.join(d, fn)) as f:
+                    out.extend(json.load(f).get("findings", []))
+    return out
 
 
 def child_env():
